@@ -35,6 +35,10 @@ enum Edit {
     Remove { block: usize, index: usize },
     /// `function.block_mut(block)?.nop()` followed by `set_address(address)` on the new instruction
     Append { block: usize, address: Option<u64> },
+    /// `instructions_mut()`: the last instruction of the block is moved to the front (what an
+    /// instrumentation pass does when it inserts a freshly numbered instruction at the top); the
+    /// block's instructions are then no longer stored in ascending index order
+    Rotate { block: usize },
 }
 
 #[derive(Clone, Debug, Serialize, Deserialize)]
@@ -99,6 +103,14 @@ fn inventory(fc: &FnCase) -> Inv {
                 }
                 blocks[*block].push((next[*block], *address));
                 next[*block] += 1;
+                applied.push(e.clone());
+            }
+            Edit::Rotate { block } => {
+                if *block >= blocks.len() || blocks[*block].len() < 2 {
+                    continue;
+                }
+                let last = blocks[*block].pop().unwrap();
+                blocks[*block].insert(0, last);
                 applied.push(e.clone());
             }
         }
@@ -268,7 +280,9 @@ fn decode_with(t: &mut Tape, p: &IlParams) -> Case {
             let inv = inventory(&fc);
             let b = t.below(n);
             let live = &inv.blocks[b];
-            if !live.is_empty() && !t.chance(1, 4) {
+            if live.len() >= 2 && t.chance(1, 5) {
+                fc.edits.push(Edit::Rotate { block: b });
+            } else if !live.is_empty() && !t.chance(1, 4) {
                 let index = live[t.below(live.len())].0;
                 fc.edits.push(Edit::Remove { block: b, index });
             } else {
@@ -312,6 +326,17 @@ fn build_function(fc: &FnCase, inv: &Inv) -> Result<il::Function, Failure> {
                         Ok(())
                     }
                     None => Err("nop() appended nothing".to_string()),
+                }
+            }
+            Edit::Rotate { block } => {
+                let blk = f.block_mut(*block).map_err(|e| e.to_string())?;
+                let v = blk.instructions_mut();
+                match v.pop() {
+                    Some(last) => {
+                        v.insert(0, last);
+                        Ok(())
+                    }
+                    None => Err("nothing to rotate".to_string()),
                 }
             }
         });
@@ -482,6 +507,9 @@ fn check(case: &Case, obs: &mut Obs) -> Result<(), Failure> {
         }
         if emptied > 0 {
             obs.class("block-emptied-by-removal");
+        }
+        if inv.blocks.iter().any(|b| b.windows(2).any(|w| w[0].0 > w[1].0)) {
+            obs.class("instructions-not-in-ascending-index-order");
         }
         if inv.applied.iter().any(|e| matches!(e, Edit::Append { .. })) && inv.applied.iter().any(|e| matches!(e, Edit::Remove { .. })) {
             obs.class("remove-then-append-history");
@@ -766,6 +794,7 @@ fn render(c: &Case) -> String {
             match e {
                 Edit::Remove { block, index } => s.push_str(&format!(" then block_mut({}).remove_instruction({})\n", block, index)),
                 Edit::Append { block, address } => s.push_str(&format!(" then block_mut({}).nop() with address {:x?}\n", block, address)),
+                Edit::Rotate { block } => s.push_str(&format!(" then block_mut({}).instructions_mut(): last instruction moved to the front\n", block)),
             }
         }
         if !inv.applied.is_empty() {
@@ -806,7 +835,7 @@ fn simplify(c: &Case) -> Vec<Case> {
                 s.exit = None;
             }
             d.fns[k].edits.retain(|e| match e {
-                Edit::Remove { block, .. } | Edit::Append { block, .. } => *block != n - 1,
+                Edit::Remove { block, .. } | Edit::Append { block, .. } | Edit::Rotate { block } => *block != n - 1,
             });
             v.push(d);
         }
@@ -890,6 +919,7 @@ fn main() -> std::process::ExitCode {
     ];
     // measured at bring-up (quick, seed 1; see C18-REPORT.md), floors at roughly half the measured share
     spec.floors = vec![
+        ("instructions-not-in-ascending-index-order", 0.05),
         ("functions-recycled-from-another-program", 0.15),
         ("nontrivial", 0.80),
         ("fn-with-empty-block", 0.50),
